@@ -111,7 +111,7 @@ CTOR_RPS = [0, -1, -0.0, 0.0, -1e-9, 1e-300, 1e-9, 0.001, 0.5, 1, 3, 7.5, 1000, 
 def run(chk, model_ok=True):
     rng = random.Random(chk.seed)
     mod = load_policer()
-    n_hist = 3000 if chk.tier == "quick" else 60000
+    n_hist = 8000 if chk.tier == "quick" else 400000
     max_len = 40 if chk.tier == "quick" else 120
     lines, expected, metas = [], [], []
     gap_hist = {}
@@ -169,7 +169,7 @@ def run(chk, model_ok=True):
     lines += ctor_lines
     expected += ctor_expected
     # wait() / wait_sync() on a fake clock, compared with the model's release times
-    wlines, wrels, n_wait = fake_clock_waits(chk, mod, rng, 400 if chk.tier == "quick" else 8000)
+    wlines, wrels, n_wait = fake_clock_waits(chk, mod, rng, 1000 if chk.tier == "quick" else 40000)
     if model_ok and wlines:
         mout, _, _ = common.run_model(wlines)
         for ln, rels, mo in zip(wlines, wrels, mout):
